@@ -252,7 +252,7 @@ def judge_c02(rec):
             gone = [e[1] for e in rec['events'] if e[0] == 'listener_removed']
             if gone:
                 bad('terminal-notifications', 'a listener that had been removed again was still notified: %s' % gone)
-        if rec['case'].get('listener') == 'raising':
+        if rec['case'].get('listener') in ('raising', 'detaching'):
             for ch in ('listener2', 'listener3'):
                 term = [e[1] for e in rec['events'] if e[0] == ch and e[1] in TERMINAL]
                 if term != [state]:
